@@ -489,3 +489,130 @@ package p9p
 //@ rangeinv done: forall f Fid :: {smhas(REFS, f)} visited(f) ==> !BOUND(f) && (old(BOUND(f)) ==> released(old(R(f).Ent)))
 //@ rangeinv todo: forall f Fid :: {smhas(REFS, f)} !visited(f) && smhas(REFS, f) ==> R(f).Ent == old(R(f).Ent) && (old(BOUND(f)) ==> !released(old(R(f).Ent)))
 //@ rangeinv distinct: forall f Fid, g Fid :: {smval(REFS, f), smval(REFS, g)} old(BOUND(f)) && old(BOUND(g)) && f != g ==> key(old(R(f).Ent)) != key(old(R(g).Ent))
+
+// ---------------------------------------------------------------- cfilesys.go (C20)
+//
+// The Session below the client file-system layer is the environment. Its abstract state, as far as C20 needs it:
+//   sbound(f) - the server has fid f bound for this client;  scalls(f) - number of session calls issued on fid f.
+
+//@ ghost sbound bool
+//@ ghost scalls int
+//@ macro SB_SAME = (forall k int :: {gk(sbound, k)} gk(sbound, k) == old(gk(sbound, k)))
+//@ macro SB_ONLY(f) = (forall k int :: {gk(sbound, k)} k != f ==> gk(sbound, k) == old(gk(sbound, k)))
+//@ macro CALLED(f) = (gk(scalls, f) == old(gk(scalls, f)) + 1 && (forall k int :: {gk(scalls, k)} k != f ==> gk(scalls, k) == old(gk(scalls, k))))
+//@ macro NOCALL = (forall k int :: {gk(scalls, k)} gk(scalls, k) == old(gk(scalls, k)))
+
+//@ iface Session.Attach
+//@ modifies alloc, sbound, scalls
+//@ ensures CALLED(fid) && SB_ONLY(fid) && (err != nil ==> SB_SAME) && (err == nil ==> gk(sbound, fid))
+//@ iface Session.Auth
+//@ modifies alloc, scalls
+//@ ensures CALLED(afid)
+//@ iface Session.Walk
+//@ modifies alloc, sbound, scalls
+//@ ensures CALLED(fid)
+//@ ensures bind: err == nil && len(result0) == len(names) && newfid != fid ==> gk(sbound, newfid) && SB_ONLY(newfid)
+//@ ensures nobind: !(err == nil && len(result0) == len(names) && newfid != fid) ==> SB_SAME
+//@ ensures err == nil ==> len(result0) <= len(names)
+//@ iface Session.Clunk
+//@ modifies alloc, sbound, scalls
+//@ ensures CALLED(fid) && !gk(sbound, fid) && SB_ONLY(fid)
+//@ iface Session.Remove
+//@ modifies alloc, sbound, scalls
+//@ ensures CALLED(fid) && !gk(sbound, fid) && SB_ONLY(fid)
+//@ iface Session.Open
+//@ modifies alloc, scalls
+//@ ensures CALLED(fid)
+//@ iface Session.Create
+//@ modifies alloc, scalls
+//@ ensures CALLED(parent)
+//@ iface Session.Stat
+//@ modifies alloc, scalls
+//@ ensures CALLED(fid)
+//@ iface Session.WStat
+//@ modifies alloc, scalls
+//@ ensures CALLED(fid)
+//@ iface Session.Read
+//@ modifies alloc, scalls, E:uint8
+//@ ensures CALLED(fid) && onlyWindow("E:uint8", p)
+//@ iface Session.Write
+//@ modifies alloc, scalls
+//@ ensures CALLED(fid)
+//@ iface Session.Version
+//@ modifies nothing
+//@ iface Session.Stop
+//@ modifies alloc
+
+//@ macro FSOK(fs) = (fs != nil && fs.session != nil && fs.nextfid < 4294967294)
+
+//@ func (*fsState).newFid
+//@ property C20
+//@ requires fs != nil && fs.nextfid < 4294967294
+//@ ensures monotone: result == old(fs.nextfid) + 1 && fs.nextfid == result && result != NOFID
+
+//@ func (*fsState).newEnt
+//@ property C20
+//@ requires fs != nil && fs.nextfid < 4294967294
+//@ ensures fresh_fid: result.fid == old(fs.nextfid) + 1 && fs.nextfid == result.fid && result.fs == fs
+
+//@ func (*fsState).Attach
+//@ property C20
+//@ requires FSOK(fs)
+//@ ensures allocator: fs.nextfid == old(fs.nextfid) + 1
+//@ ensures ok: err == nil ==> typeis(result0, cEnt) && result0.(cEnt).fid == fs.nextfid && result0.(cEnt).fs == fs && gk(sbound, fs.nextfid) && SB_ONLY(fs.nextfid)
+//@ ensures failed: err != nil ==> SB_SAME
+
+//@ func (cEnt).Walk
+//@ property C20
+//@ requires FSOK(ent.fs) && ent.fid <= ent.fs.nextfid
+//@ let NEW = (old(ent.fs.nextfid) + 1)
+//@ ensures ok: err == nil ==> typeis(result1, cEnt) && result1.(cEnt).fid == NEW && result1.(cEnt).fid != ent.fid && result1.(cEnt).fs == ent.fs && gk(sbound, NEW) && SB_ONLY(NEW)
+//@ ensures failed_binds_nothing: err != nil ==> SB_SAME
+//@ ensures own_fid: forall k int :: {gk(scalls, k)} k != ent.fid ==> gk(scalls, k) == old(gk(scalls, k))
+//@ ensures allocator: ent.fs.nextfid >= old(ent.fs.nextfid) && ent.fs.nextfid <= NEW
+
+//@ func (cEnt).Clunk
+//@ property C20
+//@ requires ent.fs != nil && ent.fs.session != nil
+//@ ensures CALLED(ent.fid) && !gk(sbound, ent.fid) && SB_ONLY(ent.fid)
+
+//@ func (cEnt).Remove
+//@ property C20
+//@ requires ent.fs != nil && ent.fs.session != nil
+//@ ensures CALLED(ent.fid) && !gk(sbound, ent.fid) && SB_ONLY(ent.fid)
+
+//@ func (cEnt).Stat
+//@ property C20
+//@ requires ent.fs != nil && ent.fs.session != nil
+//@ ensures CALLED(ent.fid) && SB_SAME
+
+//@ func (cEnt).WStat
+//@ property C20
+//@ requires ent.fs != nil && ent.fs.session != nil
+//@ ensures CALLED(ent.fid) && SB_SAME
+
+//@ func (cEnt).Open
+//@ property C20
+//@ requires ent.fs != nil && ent.fs.session != nil
+//@ ensures CALLED(ent.fid) && SB_SAME
+//@ ensures typeis(result0, fileRef) && result0.(fileRef).cEnt.fid == ent.fid
+
+//@ func (cEnt).Create
+//@ property C20
+//@ requires ent.fs != nil && ent.fs.session != nil
+//@ ensures same_fids: SB_SAME && (forall k int :: {gk(scalls, k)} k != ent.fid ==> gk(scalls, k) == old(gk(scalls, k)))
+//@ ensures ok: err == nil ==> typeis(result0, cEnt) && result0.(cEnt).fid == ent.fid && typeis(result1, fileRef) && result1.(fileRef).cEnt.fid == ent.fid && CALLED(ent.fid)
+
+//@ func (fileRef).Read
+//@ property C20
+//@ requires f.cEnt.fs != nil && f.cEnt.fs.session != nil
+//@ ensures CALLED(f.cEnt.fid) && SB_SAME
+//@ func (fileRef).Write
+//@ property C20
+//@ requires f.cEnt.fs != nil && f.cEnt.fs.session != nil
+//@ ensures CALLED(f.cEnt.fid) && SB_SAME
+
+//@ func (cEnt).Qid
+//@ property C20
+//@ modifies nothing
+//@ ensures result == ent.qid
